@@ -152,10 +152,10 @@ RULE_COLL = ("level-synchronous BFS over programs of collection operations; ever
 def coll_plan(pid, tier):
     q = tier == "quick"
     if pid == "C13":
-        jobs = [coll_job("vec-vs-std", "vec", 13, 4, 4, tier, 45), coll_job("vec-vs-std-long", "vec", 13, 2, 20, tier, 30)] if q else [coll_job("vec-vs-std-len6", "vec", 13, 5, 6, tier, 900), coll_job("vec-vs-std-long", "vec", 13, 3, 40, tier, 300), coll_job("vec-vs-std-len4-dbg", "vec", 13, 4, 4, tier, 300, build="dbg")]
+        jobs = [coll_job("vec-vs-std", "vec", 13, 4, 4, tier, 45), coll_job("vec-vs-std-long", "vec", 13, 2, 20, tier, 30), coll_job("vec-vs-std-scale", "vec", 13, 2, 260, tier, 40)] if q else [coll_job("vec-vs-std-len6", "vec", 13, 5, 6, tier, 900), coll_job("vec-vs-std-long", "vec", 13, 3, 40, tier, 300), coll_job("vec-vs-std-scale", "vec", 13, 3, 260, tier, 600), coll_job("vec-vs-std-len4-dbg", "vec", 13, 4, 4, tier, 300, build="dbg")]
         return {"level": "model_checking", "jobs": jobs, "owns_crashes": True, "rule": RULE_COLL, "assumptions": COLL_ASSUME, "bounds": {"max_len": 4 if q else 6, "depth": 4 if q else 5, "long_job": "vectors of 9 and 17 elements (up to 20; thorough 40) x 1 (thorough 2) further operations", "element_types": ["D", "u8", "Z"]}, "build_profiles": ("release",) if q else ("release", "dbg")}
     if pid == "C15":
-        jobs = [coll_job("vec-drop-ledger", "vec", 15, 4, 4, tier, 45), coll_job("vec-drop-ledger-long", "vec", 15, 2, 20, tier, 30), grid_job("box-chains", "box", 15, tier)] if q else [coll_job("vec-drop-ledger-len6", "vec", 15, 5, 6, tier, 900), coll_job("vec-drop-ledger-long", "vec", 15, 3, 40, tier, 300), grid_job("box-chains", "box", 15, tier)]
+        jobs = [coll_job("vec-drop-ledger", "vec", 15, 4, 4, tier, 45), coll_job("vec-drop-ledger-long", "vec", 15, 2, 20, tier, 30), coll_job("vec-drop-ledger-scale", "vec", 15, 2, 260, tier, 40), grid_job("box-chains", "box", 15, tier)] if q else [coll_job("vec-drop-ledger-len6", "vec", 15, 5, 6, tier, 900), coll_job("vec-drop-ledger-long", "vec", 15, 3, 40, tier, 300), coll_job("vec-drop-ledger-scale", "vec", 15, 3, 260, tier, 600), grid_job("box-chains", "box", 15, tier)]
         return {"level": "model_checking", "jobs": jobs, "owns_crashes": False, "rule": RULE_COLL + "; Box: exhaustive conversion chains", "assumptions": COLL_ASSUME, "bounds": {"max_len": 4 if q else 6, "depth": 4 if q else 5, "box_chain_steps": 3 if q else 4}}
     if pid == "C14":
         jobs = [coll_job("string-vs-std", "str", 14, 3, 3, tier, 45), grid_job("decoder-grids", "decoders", 14, tier, budget=100)] if q else [coll_job("string-vs-std-4chars", "str", 14, 4, 4, tier, 900), grid_job("decoder-grids", "decoders", 14, tier, budget=3000), coll_job("string-vs-std-dbg", "str", 14, 3, 3, tier, 300, build="dbg")]
